@@ -433,6 +433,51 @@ def rules(ck, P):
                 return None
             idx = [part_index(a) for a in tc[0]["a"]]
             okc = idx == [1, 2, 0]
+
+            # z and x are parsed from the WHOLE path part (a part that merely starts with digits is not a number: `2abc`, `2.5`, `1e3` -> 400);
+            # only y, which may carry the `.ext`, is cut at its leading digits
+            def parse_source(e, depth=0):
+                """(the str::parse call, the names of the adaptors between the path part and it) for an argument of TileCoord3::new"""
+                if e is None or depth > 6:
+                    return None
+                for y in ir.walk_nodes(e):
+                    if y.get("k") == "mcall" and (y.get("q") or "") == "str::parse":
+                        ad = []
+                        r = ir.strip(y["recv"])
+                        seen_ = 0
+                        while seen_ < 12:
+                            seen_ += 1
+                            if r.get("k") == "mcall":
+                                ad.append(r["name"])
+                                r = ir.strip(r["recv"])
+                            elif r.get("k") == "call" and len(r.get("a", ())) == 1 and ir.local_hid(ir.strip(r.get("f", {}))) in lets if r.get("f") else False:
+                                # a local closure applied to the part: its body counts
+                                clo = ir.strip(lets[ir.local_hid(ir.strip(r["f"]))])
+                                ad += [z["name"] for z in ir.walk_nodes(clo) if z.get("k") == "mcall"]
+                                r = ir.strip(r["a"][0])
+                            elif r.get("k") in ("ref", "deref", "un"):
+                                r = ir.strip(r["e"])
+                            elif r.get("k") == "path" and r.get("r") == "local" and r["hid"] in lets:
+                                r = ir.strip(lets[r["hid"]])
+                            else:
+                                break
+                        return y, [a_ for a_ in ad if a_ not in ("as_str", "as_ref", "deref", "borrow", "to_string", "to_owned", "clone")]
+                for y in ir.walk_nodes(e):
+                    if y.get("k") == "path" and y.get("r") == "local" and y["hid"] in lets:
+                        v = parse_source(lets[y["hid"]], depth + 1)
+                        if v is not None:
+                            return v
+                return None
+            lossy = {}
+            for nm, a in (("x", tc[0]["a"][0]), ("z", tc[0]["a"][2])):
+                ps_ = parse_source(a)
+                if ps_ is None:
+                    lossy[nm] = ["no parse found"]
+                elif ps_[1]:
+                    lossy[nm] = ps_[1]
+            ck.check(not lossy, "R-STATUS", b["q"] + "|zx-strict", "z and x are parsed from the whole path part (no prefix-taking adaptor before parse)",
+                     "the %s part of a tile request is cut before it is parsed (%s): `2abc`, `2.5` or `1e3` are accepted as numbers and answered with a tile instead of 400" %
+                     ("/".join(sorted(lossy)), {k: v[:4] for k, v in lossy.items()}), ir.loc(b))
         # a request with exactly the three parts z/x/y is a tile request: the branch is taken for len >= 3
         ar = [n for n in ir.walk_nodes(b["body"]) if n.get("k") == "if" and ir.cmp_norm(n["c"]) is not None and ir.cmp_norm(n["c"])[0].endswith(".len()") and
               tc and ir.contains(n["then"], lambda y: y is tc[0])]
